@@ -206,6 +206,25 @@ def replay_case(ctx, kinds, key_kind, chain_ix, variant=0, size=0):
     except Exception as e:   # noqa
         ok = False
         ctx.mismatch('C23:held-by-other-key-kind:raises', 'hash() / binary_payload() of the signed group of a %s key held by a client with another key kind raised %s: %s' % (key_kind, type(e).__name__, str(e)[:200]), case)
+    # branches whose 32 bytes happen to read as text ("0x..", "sig..", all digits): the hash is taken over bytes, whatever they look like
+    if not consensus and variant == 0 and size == 0:
+        try:
+            from pytezos.operation.group import OperationGroup
+            for head_ in (b'0x', b'0X1', b'sig', b'\x05\x74', b'77'):
+                braw = head_ + bytes((37 * k + 5) % 256 for k in range(32 - len(head_)))
+                g3 = OperationGroup(context=filled.context, contents=[dict(c) for c in filled.contents], protocol=filled.protocol, chain_id=filled.chain_id,
+                                    branch=b58check(bytes([1, 52]), braw)).sign()
+                f3 = bytes.fromhex(g3.forge())
+                _, r3 = decode_signature(g3.signature)
+                w3 = b58check(bytes([5, 116]), blake2b32(f3 + r3))
+                if f3[:32] != braw or g3.hash() != w3 or not verify(key_kind, pk, r3, b'\x03' + f3):
+                    ok = False
+                    ctx.mismatch('C23:text-like-branch:%s' % ('forge' if f3[:32] != braw else 'hash' if g3.hash() != w3 else 'signature'),
+                                 'a group on the branch %s (raw bytes begin with %r): hash() = %s, Blake2b-256(forged || raw signature) = %s' % (b58check(bytes([1, 52]), braw), head_, g3.hash(), w3), case)
+                    break
+        except Exception as e:   # noqa
+            ok = False
+            ctx.mismatch('C23:text-like-branch:raises', 'signing / hashing a group on a branch whose bytes read as text raised %s: %s' % (type(e).__name__, str(e)[:200]), case)
     # a group derived from one that already carries a hash (as returned by send / send_async) is a new group: signed and hashed by its own bytes
     if not consensus and kinds[0] in MANAGER:
         from pytezos.operation.group import OperationGroup
